@@ -35,9 +35,31 @@ def make_replay(pid, v, seed):
     return path, found
 
 
+def bounded_stand_in(pid, inconclusive, seed):
+    """The verifier could not decide the property on this tree (a function left the verified subset).
+    Bounded stand-in, never counted as proof: the witness search on the real crates.  Returns
+    (path, witness) when a concrete failing input contradicting a clause of `pid` exists."""
+    try:
+        from .mirrors import search, CASES, FAMILIES
+        w = search(pid, None, seed)
+    except Exception as e:
+        return None, None, f'bounded stand-in unavailable: {e!r}'[:400]
+    if w is None:
+        return None, None, (f'bounded stand-in (vreplay, families {",".join(FAMILIES.get(pid, []))}, {CASES} cases each, '
+                            f'seed {seed or 1}) found no failing input')
+    d = os.environ.get('VERIF_REPLAYS', os.path.join(VERIF, 'replays'))
+    os.makedirs(d, exist_ok=True)
+    path = os.path.join(d, f'{pid}-bounded-{safe(w["family"])}.json')
+    rec = {'property': pid, 'obligation': f'bounded:{w["family"]}', 'label': f'bounded:{w["family"]}', 'function': None,
+           'world': None, 'file': None, 'src_span': None, 'verifier_output': ['verifier undecided: ' + m for m in inconclusive],
+           'witness': w, 'seed': seed, 'level': 'bounded'}
+    json.dump(rec, open(path, 'w'), indent=1)
+    return path, w, None
+
+
 def run_replay(path):
     rec = json.load(open(path))
-    print(json.dumps({k: rec[k] for k in ('property', 'obligation', 'function', 'file')}, indent=1))
+    print(json.dumps({k: rec.get(k) for k in ('property', 'obligation', 'function', 'file')}, indent=1))
     for t in rec.get('verifier_output', []):
         print(t)
     if rec.get('witness'):
